@@ -49,6 +49,15 @@ CLAIMED = {
         technique="symbolic execution of both descriptions + z3 equivalence queries (rewriter / rational normal form / NRA); "
                   "counterexamples replayed on the real pipeflow",
         design="4/C06"),
+    "C09": dict(
+        text="Two-run equivalences by bounded model checking of the real code, each decided by z3 for all parameter values "
+             "per enumerated structure: reversed branches (same state in mirrored coordinates: residual rows and reported "
+             "values equal up to the documented sign/column swap), aggregated loads, disabled elements vs. their absence, "
+             "liquid pressure shift, n sections vs. n pipes in series (identity-mapped Newton systems), and for liquids at "
+             "uniform temperature the n section rows summing up to the row of the 1-section pipe.",
+        technique="symbolic execution of both descriptions + z3 equivalence queries (If-resolution, abs canonicalisation, "
+                  "rational normal form, NRA); counterexamples replayed on the real pipeflow",
+        design="4/C09"),
     "C14": dict(
         text="CrossHair executes the real init_options / _iteration_check / _mode_check / set_user_pf_options symbolically "
              "(z3) on dict layers built from symbolic presence flags and values; for each key cluster the documented "
